@@ -297,7 +297,11 @@ def gen_fake_layer(rng, kind):
     if kind == 'leading-noise':
         pre = rng.choice(['warning: something\n', 'a b c\n1 2\n',
                           'Traceback (most recent call last):\n  x\n',
-                          '\n\n\n', '1 2 x\n', '١ ٢ ٣\n', '1.0 2 3\n'])
+                          '\n\n\n', '1 2 x\n', '١ ٢ ٣\n', '1.0 2 3\n',
+                          # lines that only BEGIN like a header
+                          '7 0 0 widgets processed\n',
+                          '2026 09 29 12:00:01 started\n', '3 1 1x\n',
+                          '12 0 0\t(cache hits, misses, evictions)\n'])
     elif kind == 'header-variants':
         lines = report.split('\n')
         i = 1 if nskip else 0
